@@ -352,14 +352,14 @@ Proof.
   intros [_ OK]. induction l as [|[p i] l IH]; intros I ND.
   - exists []. split; [reflexivity|]. split; [constructor|]. simpl. tauto.
   - inversion ND as [|? ? NI ND']; subst. destruct (IH (fun e H => I e (or_intror H)) ND') as (r & E & NDr & Sp).
-    destruct (OK p i (I _ (or_introl eq_refl))) as [_ (n & En & H)].
-    cbn [iter_links]. rewrite En, tree_path_length, Nat.eqb_refl, tree_path_concat.
+    destruct (OK p i (I _ (or_introl eq_refl))) as [_ (n & En & H)]. subst p.
+    cbn [iter_links]. rewrite tree_path_length, Nat.eqb_refl, tree_path_concat.
     destruct H as [H|(a & Ea & Sv)].
     + rewrite (parse_hash n H). exists r. split; [exact E|]. split; [exact NDr|].
       intros a x. rewrite Sp. simpl. split; [tauto|]. intros [Hx [Hp|Hp]]; [|tauto].
-      exfalso. rewrite <- En in Hp. apply tree_path_inj in Hp. subst n. rewrite str_no_hash in H. discriminate.
+      exfalso. unfold tp in Hp. apply tree_path_inj in Hp. subst n. rewrite str_no_hash in H. discriminate.
     + subst n. rewrite parse_str. rewrite (serves_get _ _ Sv), E. eexists. split; [reflexivity|].
-      rewrite <- En in *. split.
+      change (tree_path (depth c) (str nm a)) with (tpa a) in *. split.
       * simpl. constructor; [|exact NDr]. intros HI. apply in_map_iff in HI. destruct HI as [[a' x'] [E1 E2]].
         simpl in E1. subst a'. apply Sp in E2. destruct E2 as [_ E2]. apply NI. exact E2.
       * intros a' x. simpl. rewrite Sp. split.
@@ -376,6 +376,458 @@ Proof.
   split; intros [H1 H2]; split; auto.
   - apply lookup_is_some in H2. destruct H2 as [i H2]. rewrite H2. reflexivity.
   - destruct (lookup (tpa a) (links s)) eqn:E'; [|discriminate]. apply lookup_is_some. eauto.
+Qed.
+
+
+(* ---- the writers keep the discipline ------------------------------------------------------------- *)
+
+Definition no_tmp (s : fs) : Prop := forall p i, In (p, i) (links s) -> exists a, p = tpa a.
+
+(* the open combined batch is a file of good records *)
+Definition cur_ok (s : fs) (cu : option (nat * nat * nat)) : Prop :=
+  match cu with
+  | None => True
+  | Some (i, _, _) => i < length (inodes s) /\ exists rs, recs_good rs /\ nth i (inodes s) [] = records rs
+  end.
+
+Lemma cur_ok_pres s s' cu : length (inodes s) <= length (inodes s') ->
+  (forall i cnt sz, cu = Some (i, cnt, sz) -> i < length (inodes s) -> nth i (inodes s') [] = nth i (inodes s) []) ->
+  cur_ok s cu -> cur_ok s' cu.
+Proof.
+  intros L E. destruct cu as [[[i cnt] sz]|]; simpl; [|auto]. intros [Hi (rs & G & Er)].
+  split; [lia|]. exists rs. split; [exact G|]. rewrite (E i cnt sz eq_refl Hi). exact Er.
+Qed.
+
+Lemma exists_linked s a : exists_ nm c s a = true <-> linked s (tpa a).
+Proof.
+  unfold exists_, linked. rewrite <- lookup_is_some. destruct (lookup (tpa a) (links s)); split; eauto; try discriminate.
+  intros [i H]. discriminate.
+Qed.
+
+Lemma exec_link_inodes s i p : inodes (exec s (ScLink i p)) = inodes s.
+Proof. simpl. destruct (lookup p (links s)); reflexivity. Qed.
+
+Lemma exec_link_in s i p e : In e (links (exec s (ScLink i p))) -> e = (p, i) \/ In e (links s).
+Proof. simpl. destruct (lookup p (links s)); simpl; intros H; [auto|]. destruct H; auto. Qed.
+
+Lemma comb_write_safe s i d rs : linked_ok s -> nth i (inodes s) [] = records rs -> safe s (ScWrite i d).
+Proof.
+  intros [_ OK] E p I. destruct (OK p i I) as [_ (n & En & [H|(a & Ea & [H|H])])]; exists n; split; auto.
+  - exfalso. rewrite E in H. exact (records_not_plain rs a H).
+  - right. exists a. auto.
+Qed.
+
+Lemma fresh_write_safe s i d : linked_ok s -> length (inodes s) <= i -> safe s (ScWrite i d).
+Proof. intros [_ OK] L p I. destruct (OK p i I) as [H _]. lia. Qed.
+
+Lemma find_rec_app id rs r0 : bytes_eqb (fst r0) id = true -> exists r, find_rec id (rs ++ [r0]) = Some r.
+Proof.
+  unfold find_rec. intros H. induction rs as [|x rs IH]; simpl; [rewrite H; eauto|].
+  destruct (bytes_eqb (fst x) id); eauto.
+Qed.
+
+Lemma recs_good_nil : recs_good [].
+Proof. split; [constructor|]. intros r []. Qed.
+
+Lemma recs_good_snoc rs a d : recs_good rs -> good a d -> recs_good (rs ++ [(oidb nm a, d)]).
+Proof.
+  intros [W G] Gd. split.
+  - apply Forall_app. split; [exact W|]. constructor; [|constructor]. split; simpl; [apply oid_len|apply Gd].
+  - intros r I. apply in_app_iff in I. destruct I as [I|[I|[]]]; [auto|]. subst. exists a. auto.
+Qed.
+
+(* syncBatch.write on a file of records: the record is complete before its name appears *)
+Lemma record_step s i a d rs :
+  linked_ok s -> i < length (inodes s) -> nth i (inodes s) [] = records rs -> recs_good rs -> good a d ->
+  let s' := run_trace s (t_record nm c i a d) in
+  safe_trace s (t_record nm c i a d) /\ length (inodes s') = length (inodes s) /\
+  nth i (inodes s') [] = records (rs ++ [(oidb nm a, d)]) /\
+  (forall p, linked s' p <-> linked s p \/ p = tpa a) /\ (no_tmp s -> no_tmp s') /\
+  (forall j, j <> i -> nth j (inodes s') [] = nth j (inodes s) []).
+Proof.
+  intros L Hi E G Gd. unfold t_record. cbn [run_trace fold_left safe_trace].
+  set (rc := record (oidb nm a) d). set (s1 := exec s (ScWrite i rc)).
+  assert (S1 : safe s (ScWrite i rc)) by (eapply comb_write_safe; eauto).
+  assert (E1 : nth i (inodes s1) [] = records (rs ++ [(oidb nm a, d)])).
+  { unfold s1. simpl. rewrite app_at_same by exact Hi. rewrite E, records_app. unfold records at 2. simpl.
+    rewrite app_nil_r. reflexivity. }
+  assert (L1 : length (inodes s1) = length (inodes s)) by (unfold s1; simpl; apply app_at_length).
+  assert (S2 : safe s1 (ScLink i (tpa a))).
+  { cbn [safe]. split; [rewrite L1; exact Hi|]. exists a. split; [reflexivity|]. right. rewrite E1.
+    exists (rs ++ [(oidb nm a, d)]), []. split; [apply recs_good_snoc; assumption|]. split; [rewrite app_nil_r; reflexivity|].
+    apply find_rec_app. simpl. apply bytes_eqb_refl. }
+  split; [tauto|]. rewrite !exec_link_inodes.
+  assert (O : forall j, j <> i -> nth j (inodes s1) [] = nth j (inodes s) []) by (intros j NE; unfold s1; simpl; apply app_at_other; exact NE).
+  split; [exact L1|split; [exact E1|split; [|split; [|exact O]]]].
+  - intros p. rewrite linked_link. unfold linked, s1. simpl. tauto.
+  - intros NT p' j I. apply exec_link_in in I. destruct I as [I|I]; [inversion I; eauto|]. apply (NT p' j). exact I.
+Qed.
+
+Lemma exec_close s : exec s ScClose = s. Proof. reflexivity. Qed.
+Lemma exec_sync s : exec s ScSync = s. Proof. reflexivity. Qed.
+
+Lemma no_link_to_new s p : linked_ok s -> ~ In (p, length (inodes s)) (links s).
+Proof. intros [_ OK] I. destruct (OK _ _ I) as [H _]. lia. Qed.
+
+Lemma new_inode_nth s d j : j < length (inodes s) ->
+  nth j (app_at (length (inodes s)) d (inodes s ++ [[]])) [] = nth j (inodes s) [].
+Proof. intros H. rewrite app_at_other by lia. apply app_nth1. exact H. Qed.
+
+Lemma new_inode_self s d : nth (length (inodes s)) (app_at (length (inodes s)) d (inodes s ++ [[]])) [] = d.
+Proof.
+  rewrite app_at_same by (rewrite app_length; simpl; lia). rewrite app_nth2, Nat.sub_diag by lia. reflexivity.
+Qed.
+
+(* linuxWriter.writeFile: the name appears when the file is complete *)
+Lemma single_step s a d : linked_ok s -> good a d -> no_prefix d = true ->
+  let t := t_single s (tpa a) d in let s' := run_trace s t in
+  safe_trace s t /\ length (inodes s) <= length (inodes s') /\
+  (forall j, j < length (inodes s) -> nth j (inodes s') [] = nth j (inodes s) []) /\
+  (forall p, linked s' p <-> linked s p \/ p = tpa a) /\ (no_tmp s -> no_tmp s').
+Proof.
+  intros L G NP. unfold t_single. cbn [run_trace fold_left safe_trace]. rewrite exec_close.
+  set (n := length (inodes s)). set (s1 := exec s ScOpenTmp). set (s2 := exec s1 (ScWrite n d)).
+  assert (S1 : safe s1 (ScWrite n d)) by (intros p I; exfalso; exact (no_link_to_new s p L I)).
+  assert (E2 : nth n (inodes s2) [] = d) by apply new_inode_self.
+  assert (Len2 : length (inodes s2) = S n) by (unfold s2, s1; simpl; rewrite app_at_length, app_length; simpl; lia).
+  assert (S2 : safe s2 (ScLink n (tpa a))).
+  { cbn [safe]. split; [rewrite Len2; lia|]. exists a. split; [reflexivity|]. left. rewrite E2. split; assumption. }
+  split; [exact (conj I (conj S1 (conj S2 (conj I I))))|]. rewrite !exec_link_inodes.
+  split; [rewrite Len2; lia|]. split; [intros j Hj; apply new_inode_nth; exact Hj|]. split.
+  - intros p. rewrite linked_link. unfold linked, s2, s1. simpl. tauto.
+  - intros NT p' j I. apply exec_link_in in I. destruct I as [I|I]; [inversion I; eauto|]. apply (NT p' j). exact I.
+Qed.
+
+Lemma tmp_not_linked s a k : no_tmp s -> lookup (tmpp nm c a k) (links s) = None.
+Proof.
+  intros NT. apply lookup_none. intros I. apply in_map_iff in I. destruct I as [[p i] [E I]]. simpl in E. subst p.
+  destruct (NT _ _ I) as [a' E]. unfold tmpp, tp in E. apply tree_path_inj in E.
+  pose proof (has_hash_tmp (str nm a) k) as H. rewrite E, str_no_hash in H. discriminate.
+Qed.
+
+Lemma free_tmp_0 s a : no_tmp s -> free_tmp nm c s a = Some 0.
+Proof. intros NT. unfold free_tmp. simpl. rewrite tmp_not_linked by exact NT. reflexivity. Qed.
+
+(* genericWriter.writeData: the data is complete under the temporary name before the rename *)
+Lemma generic_step s a d : linked_ok s -> no_tmp s -> good a d -> no_prefix d = true ->
+  let t := t_generic nm c s a 0 d in let s' := run_trace s t in
+  safe_trace s t /\ length (inodes s) <= length (inodes s') /\
+  (forall j, j < length (inodes s) -> nth j (inodes s') [] = nth j (inodes s) []) /\
+  (forall p, linked s' p <-> linked s p \/ p = tpa a) /\ no_tmp s'.
+Proof.
+  intros L NT G NP. unfold t_generic. cbn [run_trace fold_left safe_trace]. rewrite exec_close.
+  set (n := length (inodes s)). set (tmp := tmpp nm c a 0).
+  set (s1 := exec s (ScOpenExcl tmp)). set (s2 := exec s1 (ScWrite n d)).
+  pose proof (tmp_not_linked s a 0 NT) as TN. fold tmp in TN.
+  assert (S0 : safe s (ScOpenExcl tmp)).
+  { cbn [safe]. split; [exact TN|]. exists (tmp_name (str nm a) 0). split; [reflexivity|apply has_hash_tmp]. }
+  assert (S1 : safe s1 (ScWrite n d)).
+  { intros p I. simpl in I. destruct I as [I|I]; [|exfalso; exact (no_link_to_new s p L I)].
+    inversion I; subst p. exists (tmp_name (str nm a) 0). split; [reflexivity|left; apply has_hash_tmp]. }
+  assert (Lk2 : lookup tmp (links s2) = Some n) by (unfold s2, s1; simpl; rewrite lookup_cons, path_eqb_refl; reflexivity).
+  assert (E2 : nth n (inodes s2) [] = d) by apply new_inode_self.
+  assert (S2 : safe s2 (ScRename tmp (tpa a))).
+  { cbn [safe]. exists n, a. split; [exact Lk2|]. split; [reflexivity|]. rewrite E2. split; assumption. }
+  split; [exact (conj S0 (conj S1 (conj I (conj S2 I))))|].
+  assert (Ein : inodes (exec s2 (ScRename tmp (tpa a))) = inodes s2) by (cbn [exec]; rewrite Lk2; reflexivity).
+  rewrite Ein.
+  split; [unfold s2, s1; simpl; rewrite app_at_length, app_length; lia|].
+  split; [intros j Hj; apply new_inode_nth; exact Hj|]. split.
+  - intros p. rewrite (linked_rename s2 tmp (tpa a) n p Lk2).
+    assert (Ls2 : linked s2 p <-> linked s p \/ p = tmp) by (unfold linked, s2, s1; simpl; intuition).
+    rewrite Ls2. assert (TL : ~ linked s tmp) by (apply lookup_none; exact TN).
+    split.
+    + intros [H|[[H|H] [H1 H2]]]; [auto|auto|contradiction].
+    + intros [H|H]; [|auto]. destruct (path_eqb p (tpa a)) eqn:Q; [apply path_eqb_eq in Q; auto|].
+      right. split; [auto|]. split; [intros Q'; subst p; contradiction|].
+      intros Q'. subst p. rewrite path_eqb_refl in Q. discriminate.
+  - intros p' j I. cbn [exec] in I. rewrite Lk2 in I. cbn [links] in I. destruct I as [I|I]; [inversion I; eauto|].
+    apply in_remove in I. destruct I as [I _]. apply in_remove in I. destruct I as [I NE].
+    unfold s2, s1 in I. simpl in I. destruct I as [I|I]; [inversion I as [[Q1 Q2]]; simpl in NE; congruence|]. apply (NT p' j). exact I.
+Qed.
+
+Definition igood (o : nat * bytes) : Prop := good (fst o) (snd o) /\ no_prefix (snd o) = true.
+
+(* a run of syncBatch.write calls on one file of records *)
+Lemma records_run i : forall items s rs, linked_ok s -> i < length (inodes s) -> nth i (inodes s) [] = records rs ->
+  recs_good rs -> Forall igood items ->
+  let t := flat_map (fun o => t_record nm c i (fst o) (snd o)) items in let s' := run_trace s t in
+  safe_trace s t /\ length (inodes s') = length (inodes s) /\
+  (forall j, j <> i -> nth j (inodes s') [] = nth j (inodes s) []) /\
+  (forall p, linked s' p <-> linked s p \/ exists o, In o items /\ p = tpa (fst o)) /\ (no_tmp s -> no_tmp s').
+Proof.
+  induction items as [|[a d] items IH]; intros s rs L Hi E G F; cbn [flat_map].
+  - simpl. repeat split; auto. intros [H|(o & [] & _)]. exact H.
+  - inversion F as [|? ? [F1 _] F2]; subst. simpl in F1.
+    destruct (record_step s i a d rs L Hi E G F1) as (S1 & Len & E1 & Lk & NT & O).
+    set (s1 := run_trace s (t_record nm c i a d)) in *.
+    assert (L1 : linked_ok s1) by (apply trace_ok; assumption).
+    assert (Hi1 : i < length (inodes s1)) by lia.
+    destruct (IH s1 (rs ++ [(oidb nm a, d)]) L1 Hi1 E1 (recs_good_snoc rs a d G F1) F2) as (S2 & Len2 & O2 & Lk2 & NT2).
+    cbn [fst snd]. rewrite run_trace_app. fold s1.
+    split; [apply safe_trace_app; split; assumption|]. split; [lia|].
+    split; [intros j NE; rewrite O2, O by exact NE; reflexivity|]. split; [|auto].
+    intros p. rewrite Lk2, Lk. split.
+    + intros [[H|H]|(o & I & H)]; [auto|right; exists (a, d); split; [left; reflexivity|exact H]|right; exists o; split; [right; exact I|exact H]].
+    + intros [H|(o & [I|I] & H)]; [auto|subst o; left; right; exact H|right; exists o; auto].
+Qed.
+
+Lemma generic_batch_run : forall items s, linked_ok s -> no_tmp s -> Forall igood items ->
+  let t := fst (t_generic_batch nm c s items) in let s' := run_trace s t in
+  snd (t_generic_batch nm c s items) = true /\ safe_trace s t /\ length (inodes s) <= length (inodes s') /\
+  (forall j, j < length (inodes s) -> nth j (inodes s') [] = nth j (inodes s) []) /\
+  (forall p, linked s' p <-> linked s p \/ exists o, In o items /\ p = tpa (fst o)) /\ no_tmp s'.
+Proof.
+  induction items as [|[a d] items IH]; intros s L NT F; cbn [t_generic_batch].
+  - simpl. repeat split; auto. intros [H|(o & [] & _)]. exact H.
+  - inversion F as [|? ? [F1 F1'] F2]; subst. simpl in F1, F1'. rewrite free_tmp_0 by exact NT.
+    destruct (generic_step s a d L NT F1 F1') as (S1 & Len & O & Lk & NT1).
+    set (t1 := t_generic nm c s a 0 d) in *. set (s1 := run_trace s t1) in *.
+    assert (L1 : linked_ok s1) by (apply trace_ok; assumption).
+    destruct (IH s1 L1 NT1 F2) as (Ok & S2 & Len2 & O2 & Lk2 & NT2).
+    destruct (t_generic_batch nm c s1 items) as [t2 ok2] eqn:TB. cbn [fst snd] in *.
+    rewrite run_trace_app. fold s1.
+    split; [exact Ok|]. split; [apply safe_trace_app; split; assumption|]. split; [lia|].
+    split; [intros j Hj; rewrite O2 by lia; apply O; exact Hj|]. split; [|exact NT2].
+    intros p. rewrite Lk2, Lk. split.
+    + intros [[H|H]|(o & I & H)]; [auto|right; exists (a, d); split; [left; reflexivity|exact H]|right; exists o; split; [right; exact I|exact H]].
+    + intros [H|(o & [I|I] & H)]; [auto|subst o; left; right; exact H|right; exists o; auto].
+Qed.
+
+(* ---- C10: refinement to a map ------------------------------------------------------------------- *)
+
+Definition fmap := nat -> option bytes.
+Definition upd (M : fmap) (a : nat) (v : option bytes) : fmap := fun x => if Nat.eqb x a then v else M x.
+
+(* results of the same operations on the map; the map of the moment for an iteration *)
+Inductive rres := QPut (ok : bool) | QDel (found : bool) | QGet (v : option bytes) | QExists (b : bool)
+                | QIter (M : fmap) | QNone.
+
+Definition is_some {A} (o : option A) : bool := match o with Some _ => true | None => false end.
+
+Definition ref_put (M : fmap) (o : nat * bytes) : fmap := upd M (fst o) (decompress dec (snd o)).
+
+Definition ref_step (M : fmap) (o : op) : fmap * rres :=
+  match o with
+  | OPut a d => if is_nil d then (M, QPut false) else (ref_put M (a, d), QPut true)
+  | OBatch l => (fold_left ref_put (nonempty l) M, QPut true)
+  | OSync => (M, QNone)
+  | ODelete a => (upd M a None, QDel (is_some (M a)))
+  | OGetBytes a => (M, QGet (M a))
+  | OStream a => (M, QGet (M a))
+  | OReadObj a _ => (M, QGet (M a))
+  | OExists a => (M, QExists (is_some (M a)))
+  | OIterate => (M, QIter M)
+  end.
+
+Fixpoint ref_run (M : fmap) (ops : list op) : fmap * list rres :=
+  match ops with
+  | [] => (M, [])
+  | o :: r => let '(M1, x) := ref_step M o in let '(M2, xs) := ref_run M1 r in (M2, x :: xs)
+  end.
+
+Definition res_match (r : res) (q : rres) : Prop :=
+  match r, q with
+  | RPut x, QPut y => x = y
+  | RDel x, QDel y => x = y
+  | RGet g, QGet v => g = match v with Some x => GOk x | None => GNotFound end
+  | RExists x, QExists y => x = y
+  | RIter (Some l), QIter M => NoDup (map fst l) /\ forall a x, In (a, x) l <-> M a = Some x
+  | RNone, QNone => True
+  | _, _ => False
+  end.
+
+Definition item_ok (o : nat * bytes) : Prop := snd o = [] \/ igood o.
+
+Definition op_ok (o : op) : Prop :=
+  match o with
+  | OPut a d => item_ok (a, d)
+  | OBatch l => Forall item_ok l
+  | OReadObj _ cap => 2 * npfbl <= cap
+  | _ => True
+  end.
+
+Definition agrees (M : fmap) (s : fs) : Prop :=
+  forall a, M a = if exists_ nm c s a then Some (content a) else None.
+
+Definition Inv (w : wst) (M : fmap) : Prop :=
+  linked_ok (fsys w) /\ no_tmp (fsys w) /\ cur_ok (fsys w) (cur w) /\ agrees M (fsys w).
+
+Lemma bool_eq_iff (b1 b2 : bool) : (b1 = true <-> b2 = true) -> b1 = b2.
+Proof. destruct b1, b2; intros [H1 H2]; auto; [apply H1; reflexivity|symmetry; apply H2; reflexivity]. Qed.
+
+Lemma agrees_put M s s' a : agrees M s -> (forall p, linked s' p <-> linked s p \/ p = tpa a) ->
+  agrees (upd M a (Some (content a))) s'.
+Proof.
+  intros A Lk a'. unfold upd. destruct (Nat.eqb a' a) eqn:E.
+  - apply Nat.eqb_eq in E. subst a'. replace (exists_ nm c s' a) with true; [reflexivity|].
+    symmetry. apply exists_linked, Lk. auto.
+  - rewrite A. replace (exists_ nm c s' a') with (exists_ nm c s a'); [reflexivity|].
+    apply bool_eq_iff. rewrite !exists_linked, Lk. split; [auto|]. intros [H|H]; [exact H|].
+    apply tp_inj in H. subst. rewrite Nat.eqb_refl in E. discriminate.
+Qed.
+
+Lemma fold_ref_put items : Forall igood items -> forall M a',
+  fold_left ref_put items M a' = if existsb (fun o => Nat.eqb a' (fst o)) items then Some (content a') else M a'.
+Proof.
+  induction 1 as [|[a d] items [[_ [D _]] _] _ IH]; intros M a'; simpl; [reflexivity|]. simpl in D.
+  rewrite IH. unfold ref_put, upd. simpl. rewrite D.
+  destruct (existsb (fun o => Nat.eqb a' (fst o)) items); [rewrite orb_true_r; reflexivity|]. rewrite orb_false_r.
+  destruct (Nat.eqb a' a) eqn:E; [apply Nat.eqb_eq in E; subst; reflexivity|reflexivity].
+Qed.
+
+Lemma agrees_batch M s s' items : Forall igood items -> agrees M s ->
+  (forall p, linked s' p <-> linked s p \/ exists o, In o items /\ p = tpa (fst o)) ->
+  agrees (fold_left ref_put items M) s'.
+Proof.
+  intros F A Lk a'. rewrite fold_ref_put by exact F. rewrite A.
+  assert (E : exists_ nm c s' a' = exists_ nm c s a' || existsb (fun o => Nat.eqb a' (fst o)) items).
+  { apply bool_eq_iff. rewrite orb_true_iff, !exists_linked, Lk, existsb_exists. split.
+    - intros [H|(o & I & H)]; [auto|]. right. exists o. split; [exact I|]. apply tp_inj in H. subst. apply Nat.eqb_refl.
+    - intros [H|(o & I & H)]; [auto|]. right. exists o. split; [exact I|]. apply Nat.eqb_eq in H. subst. reflexivity. }
+  rewrite E. destruct (existsb (fun o => Nat.eqb a' (fst o)) items); [rewrite orb_true_r; reflexivity|].
+  rewrite orb_false_r. reflexivity.
+Qed.
+
+Lemma nonempty_good l : Forall item_ok l -> Forall igood (nonempty l).
+Proof.
+  induction 1 as [|[a d] l [H|H] _ IH]; simpl; [constructor| |].
+  - simpl in H. subst d. simpl. exact IH.
+  - destruct H as [[NE G] NP]. simpl in NE. destruct d; [congruence|]. simpl. constructor; [|exact IH].
+    split; [split; [discriminate|exact G]|exact NP].
+Qed.
+
+(* one operation: the invariant is kept, the result is the map's, the syscalls were safe *)
+Lemma step_refines w M o : Inv w M -> op_ok o ->
+  Inv (fst (step dec nm c w o)) (fst (ref_step M o)) /\
+  res_match (snd (step dec nm c w o)) (snd (ref_step M o)) /\
+  safe_trace (fsys w) (fst (fst (op_trace dec nm c w o))).
+Proof.
+  intros (L & NT & CU & A) OK. destruct w as [s cu]. simpl in L, NT, CU, A.
+  destruct o as [a d|l| |a|a|a|a cap|a|]; unfold step; cbn [op_trace ref_step].
+  - (* Put *)
+    simpl in OK. unfold t_put. cbn [fsys cur]. destruct OK as [OK|[[G NP] _]]; simpl in OK.
+    { subst d. simpl. repeat split; auto. }
+    simpl in G, NP. assert (NN : is_nil d = false) by (destruct G as [NE _]; destruct d; [congruence|reflexivity]).
+    rewrite NN. unfold ref_put. cbn [fst snd]. destruct G as [NE [D LD]]. rewrite D.
+    assert (G : good a d) by (split; [exact NE|split; assumption]).
+    destruct (generic c) eqn:GEN.
+    { rewrite free_tmp_0 by exact NT. destruct (generic_step s a d L NT G NP) as (S1 & Len & O & Lk & NT1).
+      cbn [fst snd fsys cur]. split; [|split; [reflexivity|exact S1]].
+      split; [apply trace_ok; assumption|]. split; [exact NT1|]. split; [|eapply agrees_put; eassumption].
+      eapply cur_ok_pres; [exact Len| |exact CU]. intros i cnt sz _ Hi. apply O. exact Hi. }
+    destruct (goes_single c d) eqn:GS.
+    { destruct (single_step s a d L G NP) as (S1 & Len & O & Lk & NT1).
+      cbn [fst snd fsys cur]. split; [|split; [reflexivity|exact S1]].
+      split; [apply trace_ok; assumption|]. split; [auto|]. split; [|eapply agrees_put; eassumption].
+      eapply cur_ok_pres; [exact Len| |exact CU]. intros i cnt sz _ Hi. apply O. exact Hi. }
+    (* combined *)
+    assert (CB : forall (s0 : fs) (i : nat) (rs : list (bytes * bytes)) (pre : list sc),
+               s0 = run_trace s pre -> safe_trace s pre -> linked_ok s0 -> (no_tmp s0) ->
+               (forall p, linked s0 p <-> linked s p) ->
+               i < length (inodes s0) -> nth i (inodes s0) [] = records rs -> recs_good rs ->
+               forall suffix cu', (forall x, In x suffix -> x = ScSync \/ x = ScClose) ->
+               (cu' = None \/ exists cnt sz, cu' = Some (i, cnt, sz)) ->
+               let t := pre ++ t_record nm c i a d ++ suffix in
+               Inv {| fsys := run_trace s t; cur := cu' |} (upd M a (Some (content a))) /\ safe_trace s t).
+    { intros s0 i rs pre E0 Sp L0 NT0 Lk0 Hi Ei Gr suffix cu' Suf Cu' t. unfold t.
+      destruct (record_step s0 i a d rs L0 Hi Ei Gr G) as (S1 & Len & E1 & Lk & NT1 & O).
+      rewrite !run_trace_app, <- E0. set (s1 := run_trace s0 (t_record nm c i a d)) in *.
+      assert (Esuf : forall s2, run_trace s2 suffix = s2 /\ safe_trace s2 suffix).
+      { clear - Suf. induction suffix as [|x r IH]; intros s2; simpl; [auto|].
+        destruct (Suf x (or_introl eq_refl)) as [->| ->]; simpl; (split; [|split; [exact I|]]); apply IH; intros y Hy; apply Suf; right; exact Hy. }
+      rewrite (proj1 (Esuf s1)).
+      split.
+      - split; [apply trace_ok; assumption|]. split; [auto|]. split.
+        + destruct Cu' as [->|(cnt & sz & ->)]; simpl; [exact I|]. split; [lia|].
+          exists (rs ++ [(oidb nm a, d)]). split; [apply recs_good_snoc; assumption|exact E1].
+        + eapply agrees_put; [exact A|]. intros p. rewrite Lk, Lk0. reflexivity.
+      - apply safe_trace_app. split; [exact Sp|]. rewrite <- E0. apply safe_trace_app. split; [exact S1|]. apply Esuf. }
+    destruct cu as [[[i cnt] sz]|]; cbn [fst snd fsys cur].
+    + destruct CU as [Hi (rs & Gr & Ei)].
+      destruct ((climit c <=? S cnt) || (slimit c <=? sz + combined_data_off + length d)).
+      * destruct (CB s i rs [] eq_refl I L NT (fun p => iff_refl _) Hi Ei Gr [ScSync; ScClose] None) as [H1 H2];
+          [intros x [<-|[<-|[]]]; auto|auto|]. simpl app in *. cbn [fst snd fsys cur]. repeat split; try apply H1; exact H2.
+      * destruct (CB s i rs [] eq_refl I L NT (fun p => iff_refl _) Hi Ei Gr [] (Some (i, S cnt, sz + combined_data_off + length d))) as [H1 H2];
+          [intros x []|eauto|]. simpl app in *. rewrite app_nil_r in *. cbn [fst snd fsys cur]. repeat split; try apply H1; exact H2.
+    + set (n := length (inodes s)).
+      assert (L0 : linked_ok (exec s ScOpenTmp)) by (apply exec_ok; [exact L|exact I]).
+      assert (Hn : n < length (inodes (exec s ScOpenTmp))) by (simpl; rewrite app_length; simpl; unfold n; lia).
+      assert (En : nth n (inodes (exec s ScOpenTmp)) [] = records []) by (simpl; unfold n; rewrite app_nth2, Nat.sub_diag by lia; reflexivity).
+      destruct ((climit c <=? 1) || (slimit c <=? 0 + combined_data_off + length d)).
+      * destruct (CB (exec s ScOpenTmp) n [] [ScOpenTmp] eq_refl (conj I I) L0 NT (fun p => iff_refl _) Hn En recs_good_nil [ScSync; ScClose] None) as [H1 H2];
+          [intros x [<-|[<-|[]]]; auto|auto|]. cbn [fst snd fsys cur]. repeat split; try apply H1; exact H2.
+      * destruct (CB (exec s ScOpenTmp) n [] [ScOpenTmp] eq_refl (conj I I) L0 NT (fun p => iff_refl _) Hn En recs_good_nil [] (Some (n, 1, 0 + combined_data_off + length d))) as [H1 H2];
+          [intros x []|eauto|]. rewrite app_nil_r in *. cbn [fst snd fsys cur]. repeat split; try apply H1; exact H2.
+  - (* PutBatch *)
+    simpl in OK. pose proof (nonempty_good l OK) as F. unfold t_batch. cbn [fsys cur]. destruct (generic c).
+    + destruct (generic_batch_run (nonempty l) s L NT F) as (Ok & S1 & Len & O & Lk & NT1).
+      destruct (t_generic_batch nm c s (nonempty l)) as [t ok] eqn:TB. cbn [fst snd fsys cur] in *.
+      split; [|split; [exact Ok|exact S1]].
+      split; [apply trace_ok; assumption|]. split; [exact NT1|]. split; [|eapply agrees_batch; eassumption].
+      eapply cur_ok_pres; [exact Len| |exact CU]. intros i cnt sz _ Hi. apply O. exact Hi.
+    + cbn [fst snd fsys cur]. set (n := length (inodes s)).
+      assert (L0 : linked_ok (exec s ScOpenTmp)) by (apply exec_ok; [exact L|exact I]).
+      assert (Hn : n < length (inodes (exec s ScOpenTmp))) by (simpl; rewrite app_length; simpl; unfold n; lia).
+      assert (En : nth n (inodes (exec s ScOpenTmp)) [] = records []) by (simpl; unfold n; rewrite app_nth2, Nat.sub_diag by lia; reflexivity).
+      destruct (records_run n (nonempty l) (exec s ScOpenTmp) [] L0 Hn En recs_good_nil F) as (S1 & Len & O & Lk & NT1).
+      change (ScOpenTmp :: ?x ++ [ScSync; ScClose]) with ([ScOpenTmp] ++ x ++ [ScSync; ScClose]).
+      rewrite !run_trace_app. change (run_trace s [ScOpenTmp]) with (exec s ScOpenTmp).
+      set (s1 := run_trace (exec s ScOpenTmp) _) in *. change (run_trace s1 [ScSync; ScClose]) with s1.
+      split; [|split; [reflexivity|]].
+      * split; [apply trace_ok; assumption|]. split; [apply NT1; exact NT|]. split.
+        -- eapply cur_ok_pres; [| |exact CU]; [rewrite Len; simpl; rewrite app_length; lia|].
+           intros i cnt sz _ Hi. rewrite O by (unfold n; lia). simpl. apply app_nth1. exact Hi.
+        -- eapply agrees_batch; [exact F|exact A|]. intros p. rewrite Lk. unfold linked. simpl. reflexivity.
+      * apply safe_trace_app. split; [simpl; auto|]. apply safe_trace_app. split; [exact S1|]. simpl. auto.
+  - (* timer *)
+    cbn [fst snd fsys cur]. unfold t_sync. cbn [cur]. destruct cu as [[[i cnt] sz]|]; simpl; repeat split; auto.
+  - (* Delete *)
+    cbn [fsys cur]. rewrite (A a). destruct (exists_ nm c s a) eqn:E; cbn [fst snd fsys cur is_some].
+    + split; [|split; [reflexivity|simpl; auto]]. change (run_trace s [ScUnlink (tpa a)]) with (exec s (ScUnlink (tpa a))).
+      split; [apply exec_ok; [exact L|exact I]|]. split; [|split].
+      * intros p i I. simpl in I. apply in_remove in I. apply (NT p i). tauto.
+      * eapply cur_ok_pres; [| |exact CU]; simpl; auto.
+      * intros a'. unfold upd. destruct (Nat.eqb a' a) eqn:Q.
+        -- apply Nat.eqb_eq in Q. subst. replace (exists_ nm c (exec s (ScUnlink (tpa a))) a) with false; [reflexivity|].
+           symmetry. apply not_true_is_false. rewrite exists_linked, linked_unlink. tauto.
+        -- rewrite A. replace (exists_ nm c (exec s (ScUnlink (tpa a))) a') with (exists_ nm c s a'); [reflexivity|].
+           apply bool_eq_iff. rewrite !exists_linked, linked_unlink. split; [|tauto]. intros H. split; [exact H|].
+           intros Q'. apply tp_inj in Q'. subst. rewrite Nat.eqb_refl in Q. discriminate.
+    + split; [|split; [reflexivity|simpl; auto]]. simpl. split; [exact L|]. split; [exact NT|]. split; [exact CU|].
+      intros a'. unfold upd. destruct (Nat.eqb a' a) eqn:Q; [|apply A]. apply Nat.eqb_eq in Q. subst. rewrite E. reflexivity.
+  - (* Get / GetBytes *)
+    cbn [fst snd fsys cur]. split; [repeat split; assumption|]. split; [|simpl; auto].
+    simpl. rewrite (proj1 (reads_ok s a L)), (A a). destruct (exists_ nm c s a); reflexivity.
+  - (* Head / GetStream *)
+    cbn [fst snd fsys cur]. split; [repeat split; assumption|]. split; [|simpl; auto].
+    simpl. rewrite (proj1 (proj2 (reads_ok s a L))), (A a). destruct (exists_ nm c s a); reflexivity.
+  - (* ReadObject / ReadHeader *)
+    cbn [fst snd fsys cur]. split; [repeat split; assumption|]. split; [|simpl; auto].
+    simpl. rewrite (proj2 (proj2 (reads_ok s a L)) cap OK), (A a). destruct (exists_ nm c s a); reflexivity.
+  - (* Exists *)
+    cbn [fst snd fsys cur]. split; [repeat split; assumption|]. split; [|simpl; auto].
+    simpl. rewrite (A a). destruct (exists_ nm c s a); reflexivity.
+  - (* Iterate *)
+    cbn [fst snd fsys cur]. split; [repeat split; assumption|]. split; [|simpl; auto].
+    destruct (iterate_ok s L) as (r & E & ND & Sp). simpl. rewrite E. split; [exact ND|].
+    intros a x. rewrite Sp, (A a). destruct (exists_ nm c s a); split; try (intros [-> _]; reflexivity); try (intros [_ H]; discriminate); try discriminate.
+    intros H. inversion H. auto.
+Qed.
+
+Theorem refines_map : forall ops w M, Inv w M -> Forall op_ok ops ->
+  Forall2 res_match (snd (run dec nm c w ops)) (snd (ref_run M ops)).
+Proof.
+  induction ops as [|o ops IH]; intros w M I F; [constructor|]. inversion F; subst.
+  destruct (step_refines w M o I H1) as (I' & R & _).
+  cbn [run ref_run]. destruct (step dec nm c w o) as [w1 x]. destruct (ref_step M o) as [M1 q]. simpl in I', R.
+  specialize (IH w1 M1 I' H2). destruct (run dec nm c w1 ops) as [w2 xs]. destruct (ref_run M1 ops) as [M2 qs].
+  simpl in *. constructor; assumption.
+Qed.
+
+Lemma Inv_init : Inv init_w (fun _ => None).
+Proof.
+  split; [split; [constructor|intros p i []]|]. split; [intros p i []|]. split; [exact I|]. intros a. reflexivity.
 Qed.
 
 End Discipline.
